@@ -452,8 +452,8 @@ func checkNoSelfCompare(c *Ctx, rule string) {
 					if id, ok := k.(*ast.Ident); ok {
 						if o, ok := info.Uses[id].(*types.Var); ok {
 							reads[o] = true
-							if params[o] {
-								hasParam = true
+							if params[o] || (!o.IsField() && o.Pkg() != nil && o.Parent() != o.Pkg().Scope()) {
+								hasParam = true // a parameter or a local of the function (round 6: locals filled through sqlx.Has)
 							}
 						}
 					}
